@@ -69,9 +69,27 @@ def r1(R, tus):
     reg = omp.Region(f, cfront.S("omp", name="none", clauses=[], body=f.body), tus)
     found = {}
 
+    def enclosing_conds(block):
+        """id(if statement) -> list of (condition E, polarity) of the if statements that enclose it inside `block`"""
+        out = {}
+
+        def rec(s, stack):
+            if s is None:
+                return
+            if s.k == "if":
+                out[id(s)] = list(stack)
+                rec(s.then, stack + [(s.cond, True)])
+                rec(s.els, stack + [(s.cond, False)])
+                return
+            for c in omp._children(s):
+                rec(c, stack)
+        rec(block, [])
+        return out
+
     def links_of(block, env, P):
         """walk the 'pixel above threshold' block: collect (offset poly, needs_eight)"""
         out = []
+        outer = enclosing_conds(block)
         for s in swalk(block):
             if s.k != "if":
                 continue
@@ -87,6 +105,16 @@ def r1(R, tus):
                 if x.k == "bin" and x.op == ">" and x.a[0].k == "idx" and estr(x.a[0].a[0]) == labels:
                     nexpr = x.a[0]
             Q = reg.form(nexpr.a[1], env)
+            # a link must be taken whenever ITS neighbour is labelled: it may sit under the eightconnected flag, never under a
+            # test of another neighbour's label (the else-branch of 'if W is labelled' etc.)
+            for oc, pol in outer.get(id(s), []):
+                other = [x.a[0] for x in ewalk(oc) if x.k == "bin" and x.op == ">" and x.a[0].k == "idx" and estr(x.a[0].a[0]) == labels]
+                if any(estr(o) != estr(nexpr) for o in other):
+                    R.check(False, "C11.R1", CP, s.line, "connectedpixels",
+                            "link to %s examined only when %s%s" % (estr(nexpr), "" if pol else "not ", estr(oc)),
+                            "the union with this neighbour is skipped depending on the label of another neighbour: the two are not "
+                            "necessarily in one set yet (under 4-connectivity W and N are only joined through the current pixel), so "
+                            "one blob is split")
             # the action: a match() on (labels[P], labels[Q]) or the direct copy labels[P] = labels[Q]
             act = None
             for t in swalk(s.then):
